@@ -434,8 +434,8 @@ def run(rep, tier, seed, parts=None):
         for n in (24, 34, 36):
             nb = (n // 2) ** 2
             items.append(dict(name="lattice-%dx%d-%d-basins" % (n, n, nb), fam="lattice", nf=n, nd=n,
-                              cfgs=[dict(ihmax=100, count=nb + 3), dict(ihmax=100, count=nb - 20)]
-                              + [dict(ihmax=100, count=c, wspd=w, wdir=40.0, dpt=50.0, agefac=1.7, wscut=0.3333, skip3=True) for c in (nb + 3, nb - 20) for w in (0.0, 20.0)],
+                              cfgs=[dict(ihmax=100, count=nb + 3), dict(ihmax=100, count=nb - 20), dict(ihmax=100, count=3), dict(ihmax=100, count=nb // 4)]
+                              + [dict(ihmax=100, count=c, wspd=w, wdir=40.0, dpt=50.0, agefac=1.7, wscut=0.3333, skip3=True) for c in (nb + 3, nb - 20, 3, nb // 4) for w in (0.0, 20.0)],
                               methods=["ptm1", "ptm2", "ptm3"], seed=seed))
         # bigger products with rotating configurations
         big = [(2, 5), (1, 8)] + ([(3, 4), (2, 6)] if tier == "thorough" else [])
